@@ -236,7 +236,7 @@ func genConc(rt *rapid.T) ConcCase {
 				ops = append(ops, Op{K: "rm", Q: m.q, S: m.s})
 				continue
 			}
-			op := Op{K: "def", Q: quals[[]int{0, 0, 0, 1, 1, 2, 2, 3, 3, 3}[rapid.IntRange(0, 9).Draw(rt, label+"-qual")]],
+			op := Op{K: "def", Q: quals[[]int{0, 3, 1, 2, 0, 3, 1, 2, 0, 3}[rapid.IntRange(0, 9).Draw(rt, label+"-qual")]],
 				S: specs[rapid.IntRange(0, nSpecs-1).Draw(rt, label+"-spec")]}
 			defined = append(defined, mk{op.Q, op.S})
 			ops = append(ops, op)
